@@ -215,6 +215,7 @@ func verifC18RWJudge(f verifkit.F, c *verifkit.Case, p verifC18RWProg) {
 		c.Violation(f, "C18/unexpected-error", "restore-vs-watch: %v", err)
 	case !finished:
 		verifC18Leaked.Store(true)
+		verifc18.ProofDisabled.Store(true)
 		c.Violation(f, verifC18KeyDeadlock, "Restoration.Commit and WatchList deadlock (opposite lock order on Store.mu and the publisher lock); proven by a stop-the-world stack dump:\n%s", proof)
 	}
 }
@@ -224,7 +225,12 @@ func verifC18RWJudge(f verifkit.F, c *verifkit.Case, p verifC18RWProg) {
 func TestVerifC18Replay(t *testing.T) {
 	rec := verifkit.For("C18")
 	defer rec.Flush()
-	runs := verifkit.EnvInt("VERIF_C18_REPLAY_RUNS", 200)
+	// an explicit --replay re-runs the program 200 times; the corpus sweep of the quick tier 20 times per file
+	runs := 20
+	if os.Getenv("VERIF_REPLAY") != "" {
+		runs = 200
+	}
+	runs = verifkit.EnvInt("VERIF_C18_REPLAY_RUNS", runs)
 	serialize := rec.IsKnown(verifC18KeyDeadlock)
 	for _, path := range verifkit.ReplayFiles("C18") {
 		rp, err := verifkit.LoadReplay(path)
